@@ -1,13 +1,15 @@
 # prints, for every differing sample, the first differing offset and 40 bytes of context
-import re
-t = open('/tmp/htmldoc/coq_out.txt').read()
+import re, os
+here = os.path.dirname(os.path.abspath(__file__))
+t = open(os.path.join(here, 'coq_out.txt')).read()
 for blk in t.split('     = (')[1:]:
     if 'Some' not in blk:
         continue
-    name = re.match(r'"(\w+)"', blk).group(1)
-    off = re.search(r'\((\d+),', blk).group(1)
+    m = re.match(r'"(\w+)"%string,\s*"(\w+)"', blk)
+    kind, name = m.group(1), m.group(2)
+    off = re.search(r'Some\s*\((\d+),', blk).group(1)
     parts = re.findall(r'\[([^\]]*)\]', blk)
     ctx = [bytes(int(x) for x in re.findall(r'(\d+)%N', p)) for p in parts]
-    print(name, 'first difference at offset', off)
+    print(kind, name, 'first difference at offset', off)
     print('  coq:', ctx[0] if ctx else b'')
     print('  go :', ctx[1] if len(ctx) > 1 else b'')
